@@ -2,32 +2,93 @@
    Statements only; every proof is `exact <lemma>`.  Model: ec_glob / glob_loop / glob_scan of ExDefs.v over
    the line buffer whose ln_glob bits (and ghost identities) travel with the lines in lbuf_replace. *)
 From Coq Require Import List NArith ZArith Bool.
-From NV Require Import Bytes ExDefs ExSpec ExProps GlobDefs GlobProps.
+From NV Require Import Bytes ExDefs ExSpec ExProps GlobDefs GlobProps GlobTrack.
 Import ListNotations.
 
-(* FULL STATEMENT AIMED AT: for ec_glob on range [b,e), the visited identities have no repetition, are increasing in
-   original index, are identities of the original range only (never of a line an execution created), contain every
-   original-range line present when the scan passes it, and the body runs iff the line matches at that moment.
-   PROVED HERE, for an arbitrary command-list executor satisfying good_exec (marks only travel with surviving lines +
-   tracks_low): from any loop state satisfying the loop invariant ginv (the visited line first, the still-marked
-   identities a subsequence of M0), the identities visited by the loop of ec_glob are `first` followed by a
-   SUBSEQUENCE of the originally marked identities M0 -- hence no repetition when M0 has none, original order, only
-   original lines, never an inserted line.  The trace records per visit whether the body ran: by construction of
-   glob_loop_vis exactly when (no match) = not.  MISSING: that ec_glob's marking loop establishes ginv with
-   M0 = the identities of rows b+1..e-1; completeness (no mark is left at exit); good_exec for the concrete commands
-   (C15_single_commands_track_low is not proved; KF-GLOB-LOW shows it is false for multi-command bodies). *)
-Theorem C15_visits_partial : forall dep rfind exec, good_exec exec dep ->
+(* THE VISIT THEOREM.  ec_glob, after resolving its range [b, b+n+1) and compiling the pattern, runs
+     for (i = beg + 1; i < end; i++) lbuf_globset(xb, i, xgdep);     = globset_range n (S b)
+     i = beg; while (i < lbuf_len(xb)) { ... }                        = glob_loop (= glob_loop_x without trace and exit kind)
+   For an arbitrary command-list executor that is good_exec (marks only travel with surviving lines + tracks_low) and
+   never drops the mark of an identity satisfying `keeps`, from any buffer without stale marks of this depth:
+   * the identities visited are the line b first, followed by a SUBSEQUENCE of the identities of rows b+1..b+n of the
+     original buffer (M0) -- so each original-range line is visited at most once (identities are distinct), in
+     increasing original order, never a line outside the range and never a line an execution created; the trace
+     records per visit whether the command list ran: by construction of the loop exactly when (no match) = not,
+     evaluated on the line's text at the time of the visit;
+   * when the scan ends normally (x = 0: not by a failing command list, not by fuel) no mark is left and every
+     original-range identity whose mark no execution dropped has been visited (completeness).
+   In the model a mark is dropped only by lbuf_replace removing (or over-replacing) its line: replace_mids_sub/mknew.
+   WHAT IS NOT PROVED: keeps_exec for the concrete commands with keeps = "the line is still in the buffer" (needs the
+   invariant that identities are unique and nextid is above all of them); good_exec for command lists of SEVERAL
+   commands is false in general (KF-GLOB-LOW, refuted by the corpus case) -- C15_single_commands_track_low below covers
+   single commands. *)
+Theorem C15_visits : forall dep rfind exec keeps,
+  good_exec exec dep -> keeps_exec exec dep keeps ->
+  forall s b n pat body not fuel,
+  nomarks dep (lns (lb s)) -> (b < length (lns (lb s)))%nat ->
+  let M0 := map lid (firstn n (skipn (S b) (lns (lb s)))) in
+  let first := lid (nth b (lns (lb s)) dline) in
+  let '(s', vis', x) := glob_loop_x rfind exec fuel b pat body not dep (set_lb s (globset_range n (S b) dep (lb s))) [] in
+  ((exists vs, map fst vis' = first :: vs /\ sub vs M0) \/ vis' = []) /\
+  (x = 0%N -> exists vs, map fst vis' = first :: vs /\ sub vs M0 /\ mids dep (lns (lb s')) = [] /\
+                         (forall m, In m M0 -> keeps m -> In m vs)).
+Proof. exact glob_visits_from_marking. Qed.
+Print Assumptions C15_visits.
+
+(* the loop-level statement (from any state satisfying the loop invariant), kept from the first version *)
+Theorem C15_visits_loop : forall dep rfind exec, good_exec exec dep ->
   forall M0 first pat body not fuel i s vis,
   ginv dep M0 first i (lns (lb s)) (map fst vis) ->
   let '(s', vis') := glob_loop_vis rfind exec fuel i pat body not dep s vis in
   (exists vs, map fst vis' = first :: vs /\ sub vs M0) \/ vis' = vis.
 Proof. exact glob_visits. Qed.
-Print Assumptions C15_visits_partial.
+Print Assumptions C15_visits_loop.
 
-(* the instrumented loop is the loop the model (and the extracted driver) runs *)
+(* ec_glob's marking loop establishes the loop invariant with M0 = the identities of rows b+1 .. b+n *)
+Theorem C15_marking_establishes_invariant : forall dep l b n, nomarks dep (lns l) ->
+  ginv dep (map lid (firstn n (skipn (S b) (lns l)))) (lid (nth b (lns l) dline)) b (lns (globset_range n (S b) dep l)) [].
+Proof. exact marking_ginv_lbuf. Qed.
+Print Assumptions C15_marking_establishes_invariant.
+
+(* the final sweep of ec_glob leaves no mark of its depth anywhere in the buffer, whatever state the loop ended in
+   (also after a failed command list, also when executions moved marked lines past the old end of the range): the
+   next global of the same depth starts from `nomarks`; and no edit ever creates a mark (sub), so `nomarks` lasts *)
+Theorem C15_sweep_clears_all_marks : forall dep l, nomarks dep (lns (globclear (length (lns l)) 0 dep l)).
+Proof. exact sweep_nomarks. Qed.
+Print Assumptions C15_sweep_clears_all_marks.
+
+(* tracks_low + "marks only travel with surviving lines" for every single command of the property's list that does
+   not run other commands: a i c (with any text), d, s, pu, r, and p k y = rs ec and the null command, with ANY address
+   (absolute, relative, `;`).  Hence such a command is a good executor (second part).  Not covered: a nested global
+   as the command, u, !, @, w; several commands in one list (false: KF-GLOB-LOW). *)
+Theorem C15_single_commands_track_low : forall dep rvalid rfind filter readfile curpath a loc cmd arg txt,
+  In a track_cmds ->
+  (forall s, (0 <= xrow s)%Z -> clean_below dep (S (Z.to_nat (xrow s))) (lns (lb s)) ->
+     let s' := fst (ex_simple rvalid rfind filter readfile curpath a loc cmd arg txt s) in
+     sub (mids dep (lns (lb s'))) (mids dep (lns (lb s))) /\
+     clean_below dep (Z.to_nat (Z.min (xrow s) (xrow s'))) (lns (lb s'))) /\
+  good_exec (fun _ s => ex_simple rvalid rfind filter readfile curpath a loc cmd arg txt s) dep.
+Proof. exact single_commands_track_low. Qed.
+Print Assumptions C15_single_commands_track_low.
+
+(* lbuf_replace: marks only travel with surviving lines, new lines are born unmarked (any splice, any text) *)
+Theorem C15_replace_marks : forall dep s pos n_del l,
+  sub (mids dep (lns (lbuf_replace s pos n_del l))) (mids dep (lns l)).
+Proof. exact replace_mids_sub. Qed.
+Print Assumptions C15_replace_marks.
+
+(* the re-allocation branch of lbuf_replace (capacity 512, 1024, ...), at the level of the C array: the ln_glob
+   entries in use are the same after the loop as before, whatever malloc returned, and the table does not shrink *)
+Theorem C15_marks_survive_table_growth : forall junk fuel arr n need, (n <= length arr)%nat ->
+  firstn n (glob_grow junk fuel arr n need) = firstn n arr /\ (length arr <= length (glob_grow junk fuel arr n need))%nat.
+Proof. exact glob_grow_keeps. Qed.
+Print Assumptions C15_marks_survive_table_growth.
+
+(* the instrumented loops are the loop the model (and the extracted driver) runs *)
 Theorem C15_trace_erasure : forall dep rfind exec pat body not fuel i s vis,
-  fst (glob_loop_vis rfind exec fuel i pat body not dep s vis) = glob_loop rfind exec fuel i pat body not dep s.
-Proof. exact glob_loop_vis_erase. Qed.
+  fst (glob_loop_vis rfind exec fuel i pat body not dep s vis) = glob_loop rfind exec fuel i pat body not dep s /\
+  fst (glob_loop_x rfind exec fuel i pat body not dep s vis) = glob_loop_vis rfind exec fuel i pat body not dep s vis.
+Proof. exact trace_erasure. Qed.
 Print Assumptions C15_trace_erasure.
 
 (* termination: whatever the fuel, the loop makes at most 1 + |M0| visits (every iteration consumes one mark) *)
@@ -56,9 +117,12 @@ Print Assumptions C15_one_undo.
 (* the hypotheses are satisfiable: an executor that does nothing satisfies good_exec, and ginv holds at the start
    of a scan over three lines of which the last two are marked *)
 Example C15_nonvacuous :
+  nomarks 1%N [mkline 0 0%N []; mkline 1 0%N []; mkline 2 0%N []] /\
+  keeps_exec (fun _ s => (s, 0%Z)) 1%N (fun _ => True) /\
   good_exec (fun _ s => (s, 0%Z)) 1%N /\
   ginv 1%N [1; 2]%nat 0%nat 0%nat [mkline 0 0%N []; mkline 1 2%N []; mkline 2 2%N []] [].
 Proof.
+  split; [repeat constructor|]. split; [intros body s s' r m E _ I; inversion E; subst; exact I|].
   split.
   - intros body s s' r E H0 Hc. inversion E; subst. split; [apply sub_refl|]. intros j Hj. apply Hc. Lia.lia.
   - split; [intros j Hj; assert (j = 0)%nat by Lia.lia; subst; reflexivity|].
